@@ -102,6 +102,26 @@ def model_configs(thorough):
   return cf
 
 
+# measured numbers of states (thousands) per configuration, only used to balance the parallel TLC runs
+WEIGHT = {
+  False: {"time_d": 16, "time_g": 3, "time_e": 10, "length_d": 7, "length_d3": 4, "length_g": 5, "length_e": 12, "colour_d": 7,
+          "colour_hex": 1, "colour_fn": 2, "colour_e_hex": 1, "colour_e_fn": 30, "font_d": 7, "font_c": 8, "font_g": 8, "font_ser": 2,
+          "position_g": 14, "position_5": 2, "extent_g": 4, "area_g": 6, "area_5": 1},
+  True: {"time_d": 177, "time_g": 88, "time_e": 220, "length_d": 177, "length_d3": 54, "length_g": 136, "length_e": 60, "colour_d": 177,
+         "colour_hex": 87, "colour_fn": 2, "colour_e_hex": 45, "colour_e_fn": 82, "font_d": 177, "font_c": 164, "font_g": 80,
+         "font_ser": 66, "position_g": 100, "position_5": 7, "extent_g": 9, "area_g": 61, "area_5": 7},
+}
+
+
+def weight(cid, thorough):
+  w = WEIGHT[thorough].get(cid)
+  if w is None:
+    w = {"_d": 37, "_e": 49}[cid[-2:]] if thorough else {"_d": 2, "_e": 5}[cid[-2:]]
+    if cid.startswith(("frate", "trate", "space", "tcont")):
+      w = 4 if thorough else 1
+  return w
+
+
 def ser_names(thorough):
   """names (lists of code points) of the serialisation model: all strings of 1..n characters over a small alphabet"""
   import itertools
@@ -342,7 +362,7 @@ class Drivers:
         return 0, [], 0
       out = []
       for x in (r.left_offset, r.top_offset, r.width, r.height):
-        f = frac_of_float(x) * 100
+        f = frac_of_float(round(x * 100, 6))          # the library stores fractions of 1 as floats: per cent, to 1e-6
         if not small(f.numerator, f.denominator):
           return 1, [], 1
         out.append([f.numerator, f.denominator])
@@ -994,10 +1014,10 @@ def font_features(text):
   f["one_char_name"] = any(re.fullmatch(r"(?:\\.|[^\\])", x[0], re.S) is not None for x in unq)
   # white space between an unquoted name and the following comma
   f["ws_after_unquoted"] = any(x[2][:1] != "," and x[2] != "" for x in unq)
-  # white space other than SPACE between a comma and the following name
-  f["odd_ws_after_comma"] = any(re.search(r"[\t\n\r]", x[1].split(",", 1)[1]) is not None for x in items if x[1] != "")
-  # a quoted name that contains a LINE FEED
-  f["quoted_contains_newline"] = any("\n" in x[0] for x in quo)
+  # white space other than SPACE in a separator (before or after the comma)
+  f["odd_ws_in_separator"] = any(re.search(r"[\t\n\r]", x[1]) is not None for x in items)
+  # a LINE FEED inside a quoted name, or escaped in an unquoted one
+  f["line_feed_in_name"] = any("\n" in x[0] for x in quo) or any("\\\n" in x[0] for x in unq)
   # a quoted name whose last character is an escaped backslash
   f["quoted_ends_in_backslash"] = any(re.search(r"(?<!\\)(?:\\\\)+$", x[0][1:-1]) is not None for x in quo)
   f["has_escape"] = "\\" in text
